@@ -35,10 +35,11 @@ type c12Case struct {
 	Template string
 	Session  string // none | fresh | auth
 	Addr     addrForm
+	Move     bool // the browser logs in from another address than it downloads from
 }
 
 func (c c12Case) String() string {
-	return fmt.Sprintf("pick=%d mode=%s hosts=%v param=%s user=%q subSame=%v split=%v template=%q session=%s addr=%s", c.Pick, c.Mode, c.Hosts, c.Param, c.User, c.SubSame, c.Split, c.Template, c.Session, c.Addr.Name)
+	return fmt.Sprintf("pick=%d mode=%s hosts=%v param=%s user=%q subSame=%v split=%v template=%q session=%s addr=%s moved=%v", c.Pick, c.Mode, c.Hosts, c.Param, c.User, c.SubSame, c.Split, c.Template, c.Session, c.Addr.Name, c.Move)
 }
 
 func c12QueryToken(subject, issuer string, key []byte, exp time.Time, alg string) string {
@@ -123,8 +124,12 @@ func c12Run(c c12Case, rep *Report) (viol, detail string) {
 	calls := vrand.Calls
 	defer func() {
 		if viol == "" && c.Mode == "roundrobin" && c.Session == "auth" && c.User != "" && vrand.Calls == calls {
-			// the seam that makes the round-robin pick an enumerated input is not in use any more
-			infra("C12: round-robin selection no longer goes through math/rand in cmd/rdpgw/web: the pick is not controlled")
+			// the seam that makes the round-robin pick an enumerated input is not in use any more:
+			// say so instead of claiming that every pick was covered
+			if !c12SeamWarned {
+				c12SeamWarned = true
+				rep.capf("round-robin selection no longer goes through math/rand in cmd/rdpgw/web: the pick is not enumerated, each case saw whatever entry the gateway chose")
+			}
 		}
 	}()
 	app := NewWebApp(WebCfg{Store: "cookie", HostSelection: c.Mode, Hosts: append([]string{}, c.Hosts...), QueryIssuer: "issuer-1", SplitUser: c.Split, UserTemplate: c.Template,
@@ -133,6 +138,10 @@ func c12Run(c c12Case, rep *Report) (viol, detail string) {
 	b := NewBrowser(c.Addr.Peer)
 	if len(c.Addr.XFF) > 0 {
 		b.XFF = c.Addr.XFF[0]
+	}
+	if c.Move {
+		// login happens from elsewhere; the download below comes from c.Addr
+		b.Peer, b.XFF = "198.51.100.7:41000", "203.0.113.9, 10.7.7.7"
 	}
 	sub := c.User
 	if !c.SubSame {
@@ -149,6 +158,12 @@ func c12Run(c c12Case, rep *Report) (viol, detail string) {
 			}
 			app.IdP.Codes["c12"] = CodeBehaviour{AccessToken: at, IDToken: c13IDTokens[key]}
 			b.Do(app, "GET", "/callback?state="+StateOf(rec)+"&code=c12")
+		}
+	}
+	if c.Move {
+		b.Peer, b.XFF = c.Addr.Peer, ""
+		if len(c.Addr.XFF) > 0 {
+			b.XFF = c.Addr.XFF[0]
 		}
 	}
 	param, present := c12Param(c)
@@ -305,7 +320,7 @@ func c12Tunnel(c c12Case, tok, host string, port uint16, rep *Report) string {
 }
 
 func c12(env *Env, rep *Report) {
-	rep.Rule = "product of host-selection modes {roundrobin, signed, unsigned, any} x host lists {1 entry, 3 entries, with user placeholder} x host parameter {absent, listed, unlisted, placeholder entry verbatim, valid query token for a listed / unlisted subject, forged key, expired, wrong issuer, alg none} x user names {alice, alice@example.com, a@b@c, empty} x IdP subject {equal to the user name, different} x domain splitting {off, on} x user-name template {none, '{{ username }}@x', with '{{ token }}'} x session {none, fresh, logged in through the real callback} x 3 client address forms; quick: template x address form on the diagonal (3 of 9 combinations), thorough: full product. " +
+	rep.Rule = "product of host-selection modes {roundrobin, signed, unsigned, any} x host lists {1 entry, 3 entries, with user placeholder} x host parameter {absent, listed, unlisted, placeholder entry verbatim, valid query token for a listed / unlisted subject, forged key, expired, wrong issuer, alg none} x user names {alice, alice@example.com, a@b@c, empty} x IdP subject {equal to the user name, different} x domain splitting {off, on} x user-name template {none, '{{ username }}@x', with '{{ token }}'} x session {none, fresh, logged in through the real callback} x 3 client address forms (also with the login made from another address than the download); quick: template x address form on the diagonal (3 of 9 combinations), thorough: full product. " +
 		"Each case drives the real router pieces (EnrichContext, Authenticated, HandleCallback, HandleDownload) with a scripted IdP. Oracle: not logged in => 302 to the IdP and no token anywhere; logged in => file well-formed, names the configured gateway, target chosen by the reference policy, the token's MAC verifies under the configured key and its claims are exactly {that host, session user (domain stripped iff splitting), reference client address, the session's access token, issuer, exp <= 5 min}; then (roundrobin / unsigned / any) the host and token are presented unmodified from the same address to the real tunnel path (EnrichContext, CheckPAACookie, CheckSession(CheckHost)) and must open the channel. distinct_nontrivial = distinct cases."
 	rep.Assumptions = append(rep.Assumptions, "cookie session store (C13 covers both stores)", "the IdP's userinfo subject equals the ID token subject", "round-robin's random pick is an enumerated input: math/rand in cmd/rdpgw/web is replaced by a harness-controlled source through the build overlay, and every entry is picked in turn")
 	modes := []string{"roundrobin", "signed", "unsigned", "any"}
@@ -340,7 +355,10 @@ func c12(env *Env, rep *Report) {
 											picks = len(l)
 										}
 										for pk := 0; pk < picks; pk++ {
-											cases = append(cases, c12Case{pk, m, l, p, u, same, sp, t, s, a})
+											cases = append(cases, c12Case{pk, m, l, p, u, same, sp, t, s, a, false})
+											if s == "auth" && ti == 0 && !sp && same {
+												cases = append(cases, c12Case{pk, m, l, p, u, same, sp, t, s, a, true})
+											}
 										}
 									}
 								}
@@ -387,6 +405,8 @@ func c12(env *Env, rep *Report) {
 	rep.add("distinct", int64(distinct))
 	rep.add("states", int64(distinct))
 }
+
+var c12SeamWarned bool
 
 func c12Sig(c c12Case, v string) string {
 	sig := "C12/" + v
